@@ -461,6 +461,49 @@ mod pty {
         Drop(usize),
     }
 
+    /// Sessions that raise SIGWINCH in escape-size mode: WHICH poll picks the signal up (and queues the size query
+    /// behind everything queued at that moment) is not determined by the session, so for these sessions the stream
+    /// is judged modulo size queries: every occurrence of the query is removed from what the master received and
+    /// the optional library payloads are removed from the expectation. (Sessions without such a signal keep the
+    /// exact placement rule for the query that `frames_drop` re-issues.)
+    fn modulo_size_queries(apply: bool, events: &[Evt], got: Vec<u8>) -> (Vec<Evt>, Vec<u8>) {
+        let copy = |e: &Evt| match e {
+            Evt::Payload(i) => Evt::Payload(*i),
+            Evt::LibPayload(i) => Evt::LibPayload(*i),
+            Evt::Mark => Evt::Mark,
+            Evt::Drop(n) => Evt::Drop(*n),
+        };
+        if !apply {
+            return (events.iter().map(copy).collect(), got);
+        }
+        // positions (in the raw stream) at which a size query starts
+        let mut starts: Vec<usize> = Vec::new();
+        let mut out = Vec::with_capacity(got.len());
+        let mut i = 0;
+        while i < got.len() {
+            if got[i..].starts_with(SIZE_QUERY) {
+                starts.push(i);
+                i += SIZE_QUERY.len();
+            } else {
+                out.push(got[i]);
+                i += 1;
+            }
+        }
+        // "bytes sent when the drop happened" counted the queries too: take out every query that had started by then
+        // (a query cut by that moment is taken out whole, which errs on the lenient side by at most its length)
+        let ev: Vec<Evt> = events.iter().filter(|e| !matches!(e, Evt::LibPayload(_))).map(|e| match e {
+            Evt::Drop(sent) => {
+                let q = starts.iter().filter(|p| **p < *sent).count();
+                Evt::Drop(sent.saturating_sub(q * SIZE_QUERY.len()))
+            }
+            other => copy(other),
+        }).collect();
+        (ev, out)
+    }
+
+    /// marker returned by `oracle` when its search was cut off: the session is inconclusive
+    const SEARCH_BUDGET: &str = "oracle search budget exhausted";
+
     fn fnv(bytes: &[u8]) -> u64 {
         let mut h = 0xcbf29ce484222325u64;
         for b in bytes {
@@ -478,8 +521,14 @@ mod pty {
         // depth-first over the legal cut of every drop
         fn rec(
             payloads: &[Vec<u8>], events: &[Evt], at: usize, kept: &mut Vec<usize>, marks: &mut Vec<usize>,
-            got: &[u8], complete: bool, best: &mut (usize, String),
+            got: &[u8], complete: bool, best: &mut (usize, String), budget: &mut u64,
         ) -> Option<usize> {
+            // the search is exponential in the number of optional library payloads and drops of a session: it is
+            // cut off after a fixed number of nodes and the session is then inconclusive (never a failure, never a hang)
+            if *budget == 0 {
+                return None;
+            }
+            *budget -= 1;
             let mut at = at;
             let kept_len0 = kept.len();
             let marks_len0 = marks.len();
@@ -495,7 +544,7 @@ mod pty {
                                 k2.push(*i);
                             }
                             let mut m2 = marks.clone();
-                            if let Some(r) = rec(payloads, events, at + 1, &mut k2, &mut m2, got, complete, best) {
+                            if let Some(r) = rec(payloads, events, at + 1, &mut k2, &mut m2, got, complete, best, budget) {
                                 result = Some(r);
                                 break;
                             }
@@ -524,7 +573,7 @@ mod pty {
                             }
                             let mut k2 = kept[..n_keep].to_vec();
                             let mut m2 = marks.clone();
-                            if let Some(r) = rec(payloads, events, at + 1, &mut k2, &mut m2, got, complete, best) {
+                            if let Some(r) = rec(payloads, events, at + 1, &mut k2, &mut m2, got, complete, best, budget) {
                                 result = Some(r);
                                 break;
                             }
@@ -575,8 +624,10 @@ mod pty {
             result
         }
         let mut best = (0usize, String::new());
-        match rec(payloads, events, 0, &mut Vec::new(), &mut Vec::new(), got, complete, &mut best) {
+        let mut budget: u64 = 400_000;
+        match rec(payloads, events, 0, &mut Vec::new(), &mut Vec::new(), got, complete, &mut best, &mut budget) {
             Some(d) => Ok(d),
+            None if budget == 0 => Err((SEARCH_BUDGET.into(), String::new())),
             None => Err((
                 format!("{} the written payloads in order, each once, minus whole frames legally dropped; closest legal stream: {} (agrees on the first {} bytes)",
                     if complete { "exactly" } else { "a prefix of" }, best.1, best.0),
@@ -648,7 +699,8 @@ mod pty {
         let mut poll_error: Option<String> = None;
         let mut op_index = 0usize;
         let mut winch_pending = false;
-        let mut model_traceable = true;
+        let had_winch = ops.iter().any(|o| matches!(o, TOp::Winch));
+        let mut model_traceable = (true) && !(esc && ops.iter().any(|o| matches!(o, TOp::Winch)));
         let mut table_agree = 0usize;
         let mut table_differ = 0usize;
         // bytes that have certainly started transmission: the larger of the crate's own count and what the master
@@ -880,12 +932,15 @@ mod pty {
             }
             let got: Vec<u8> = shared.received.lock().unwrap()[s0..].to_vec();
             outcome.bytes = got.len();
+            let (events, got) = modulo_size_queries(esc && had_winch, &events, got);
             match oracle(&payloads, &events, &got, true) {
                 Ok(d) => outcome.dropped_payloads = d,
+                Err((exp, _)) if exp == SEARCH_BUDGET => outcome.inconclusive = Some("oracle-search-budget".into()),
                 Err((exp, g)) => {
                     // `dispose` gives up when the DA1 answer does not arrive within a second and then flushes the
                     // tty: an incomplete stream is then legitimate, but it must still be a prefix (safety)
                     match oracle(&payloads, &events, &got, false) {
+                        Err((e2, _)) if e2 == SEARCH_BUDGET => outcome.inconclusive = Some("oracle-search-budget".into()),
                         Ok(_) if find(&got, &closing, 0).is_none() => outcome.inconclusive = Some("dispose-did-not-finish".into()),
                         _ => outcome.failure = Some((
                             "terminal dropped with output in flight: the master did not receive the frame in flight completely, then the closing sequence".into(), exp, g)),
@@ -917,8 +972,15 @@ mod pty {
             let complete = outcome.inconclusive.is_none();
             let got: Vec<u8> = shared.received.lock().unwrap()[s0..].to_vec();
             outcome.bytes = got.len();
+            let raw_len = got.len();
+            let (events, got) = modulo_size_queries(esc && had_winch, &events, got);
             match oracle(&payloads, &events, &got, complete) {
                 Ok(d) => outcome.dropped_payloads = d,
+                Err((exp, _)) if exp == SEARCH_BUDGET => {
+                    if outcome.failure.is_none() {
+                        outcome.inconclusive = Some("oracle-search-budget".into());
+                    }
+                }
                 Err((exp, g)) => match outcome.failure.take() {
                     None => outcome.failure = Some(("the pty master did not receive the written stream".into(), exp, g)),
                     // a frame was split earlier in this session; here is what it did to the stream
@@ -926,9 +988,9 @@ mod pty {
                         format!("{what}; and on the wire a frame arrived torn"), format!("{e0}; stream: {exp}"), format!("{g0}; stream: {g}"))),
                 },
             }
-            if complete && outcome.failure.is_none() && term.stats().send - s0 != got.len() {
+            if complete && outcome.failure.is_none() && term.stats().send - s0 != raw_len {
                 outcome.failure = Some(("stats().send differs from the number of bytes the master received".into(),
-                    format!("{}", got.len()), format!("{}", term.stats().send - s0)));
+                    format!("{}", raw_len), format!("{}", term.stats().send - s0)));
             }
             if want_trace && complete && model_traceable {
                 obs.push(format!("end {}/{}", fnv(&got), verif_c16::queue_len(&term)));
